@@ -663,6 +663,27 @@ def precond_guarded(F, cg, b, bb, argi, depth):
         vo = {(o.kind, o.key, o.bb, o.path) for o in fl.origins(vt['args'][0])}
         if vo == asig and fl.guarded_by(bb, vb, 'Ok'):
             return True
+    # the same two tests in line (a validating constructor of a newtype, spliced into its caller): the call is behind the true
+    # edge of is_power_of_two(v) and of (lo..=hi).contains(&v) with 512 <= lo, hi <= 65536, both on this very value
+    p2 = rng = False
+    for vb, vt in fl.calls(lambda c: c.endswith('>::is_power_of_two')):
+        if {(o.kind, o.key, o.bb, o.path) for o in fl.origins(vt['args'][0])} == asig:
+            e_ = fl.outcomes(vb).get('true', set())
+            p2 = p2 or (bool(e_) and fl.cfg.edges_guard(e_, bb))
+    for vb, vt in fl.calls(lambda c: c == 'std::ops::RangeInclusive::<Idx>::contains'):
+        if len(vt['args']) == 2 and {(o.kind, o.key, o.bb, o.path) for o in fl.origins(vt['args'][1])} == asig:
+            bounds = []
+            for o in fl.origins(vt['args'][0]):
+                if o.kind == 'call' and o.key == 'std::ops::RangeInclusive::<Idx>::new' and o.bb is not None:
+                    bounds.append([call_arg_origins(fl, o.bb, 0), call_arg_origins(fl, o.bb, 1)])
+                else:
+                    bounds.append(None)
+            good = bool(bounds) and all(x is not None and all(y.kind == 'const' and isinstance(y.key, int) and y.key >= 512 for y in x[0]) and x[0] and
+                                        all(y.kind == 'const' and isinstance(y.key, int) and y.key <= 65536 for y in x[1]) and x[1] for x in bounds)
+            e_ = fl.outcomes(vb).get('true', set())
+            rng = rng or (good and bool(e_) and fl.cfg.edges_guard(e_, bb))
+    if p2 and rng:
+        return True
     # the value is self.config.block_size of an engine built by a validating constructor
     if ao and all(o.path[-2:] == ('config', 'block_size') for o in ao):
         return True
